@@ -151,3 +151,16 @@ Definition check_unused (c : ucase) : N :=
        | [ws] => if warns_exact ws (u_merge c) && warns_exact ws (u_pipeline c) then 0 else 2
        | _ => 2
        end.
+
+(** whole trees: every level (of every locale, namespace and depth) of a project with its path, and the merged level the
+    real `LocalesOrNamespaces::merge_plurals` produced for it (None = error / panic).
+    0 spec_cross_tree holds and every merged level is the model's; 2 differs from the model; 3 spec_cross_tree fails *)
+Definition check_cross_tree (c : list plevel * option (list kmap)) : N :=
+  let '(levels, impl) := c in
+  let model := merge_project_tree (fun _ => true) (fun _ => all_forms) levels in
+  match impl with
+  | Some outs =>
+      if negb (spec_cross_tree levels outs) then 3
+      else match model with Some outs' => if list_eqb kmap_eqb outs outs' then 0 else 2 | None => 2 end
+  | None => match model with Some _ => 2 | None => 0 end
+  end.
